@@ -117,7 +117,8 @@ def main(argv=None):
     ctx = Ctx(args.tier, seed, core.Model(tag) if runner_ok else None)
     try:
         prop.run(ctx, res)
-        if broken and not any(v.found_input for v in res.violations):
+        known_keys = {f["key"] for f in core.load_findings() if f["property"] == pid and f["status"] == "known"}
+        if broken and not any(v.found_input and v.key not in known_keys for v in res.violations):
             log(f"[{pid}] proof/tie broken -> search with enlarged budget")
             ctx.scale = 4 if args.tier == "quick" else 16
             ctx.searching = True
